@@ -14,6 +14,15 @@ def handle : List String → String
       | .err _ => "err"
       | .panic _ => "panic"
     | none => "bad-request"
+  | ["fromcore", h] =>
+    match unhex h with
+    | some s => match parseDid s with
+      | .ok d => match tryFromCore d with
+        | .ok d' => showD d'
+        | .err _ => "err"
+        | .panic _ => "panic"
+      | _ => "core-err"
+    | none => "bad-request"
   | ["new", bytes, net] =>
     match unhex bytes, unhex net with
     | some b, some n =>
